@@ -5,6 +5,7 @@ CONSTANTS
   MaxClock = 40
   Js = {1, 2}
   Ks = {1}
+  Crashes = FALSE
 INVARIANT NoStale
 INVARIANT Minimal
 INVARIANT Ordered
